@@ -842,6 +842,43 @@ val is_test : token -> bool
 
 val outside : token list -> text list
 
+val needs_u_escape : n -> bool
+
+val hex4 : n -> n list
+
+val quote_char : n -> n list
+
+val yaml_quoted : n list -> n list
+
+val hexval : n -> n option
+
+type qst =
+| QN
+| QB
+| QU of nat * n
+
+val rq : qst -> n list -> n list -> (n list * n list) option
+
+val yaml_unquote : n list -> n list option
+
+val is_alpha : n -> bool
+
+val is_digit_c : n -> bool
+
+val plain_first : n -> bool
+
+val plain_char : n -> bool
+
+val lower : n -> n
+
+val kEYWORDS : n list list
+
+val is_plain : n list -> bool
+
+val yaml_scalar : n list -> n list
+
+val read_scalar : n list -> n list option
+
 val make_exp : bool -> bool -> (nat -> bool) -> nat exp
 
 val exp_opt : nat exp -> bool
